@@ -70,7 +70,7 @@ def normalise(events: list) -> str:
     for e in events:
         e = dict(e)
         if "probes" in e:
-            e["probes"] = {k: v for k, v in e["probes"].items() if k != "full_seen"}
+            e["probes"] = {k: v for k, v in e["probes"].items() if k not in ("full_seen", "stalled")}
         e.pop("ngo", None)
         e.pop("timing_dependent", None)
         out.append(json.dumps(e, sort_keys=True))
